@@ -397,8 +397,9 @@ class Vector():
 	def fillna(self, value):
 		dtype = self.schema()
 
-		# Type check and promotion (same pattern as __setitem__)
-		if dtype is not None and value is not None:
+		# Type check and promotion (same pattern as __setitem__);
+		# object dtype accepts any type - skip validation
+		if dtype is not None and dtype.kind is not object and value is not None:
 			try:
 				validate_scalar(value, dtype)
 			except TypeError:
